@@ -443,13 +443,14 @@ REGISTRY = {
                     "one, per-piece counts add up to the interval's count, for every assignment of pieces to workers"),
     "C10": Prop(
         targets=["PsProps.C10"],
-        theorems=[("PsProps.C10", "Ps.Props.C10_model_sources"), ("PsProps.C10", "Ps.Props.C10_maxPrime64_prime"), ("PsProps.C10", "Ps.Props.C10_no_prime_above"),
+        theorems=[("PsProps.C10", "Ps.Props.C10_model_sources"), ("PsProps.C10", "Ps.Props.C10_addSievingPrime_no_wrap"), ("PsProps.C10", "Ps.Props.C10_maxPrime64_prime"), ("PsProps.C10", "Ps.Props.C10_no_prime_above"),
                   ("PsProps.C10", "Ps.Props.C10_forward_values_le_max"), ("PsProps.C10", "Ps.Props.C10_iterator_top"),
                   ("PsProps.C10", "Ps.Props.C10_checkedAdd"), ("PsProps.C10", "Ps.Props.C10_checkedSub")],
         tie=combine(("iter", iter_tie), ("count", count_tie), ("segment", segment_tie), ("wheel", streams.WHEEL.tie)),
         witness=combine_witness(iter_witness, count_witness, streams.WHEEL.witness, segment_witness),
         assumptions=ITER_ASSUME + COUNT_ASSUME,
-        undischarged=["no-wrap lemmas for Wheel::addSievingPrime / cross-off index arithmetic (sieve chain, Tier B)"],
+        undischarged=["no-wrap of the cross-off index arithmetic inside the EratSmall/Medium/Big loops (multipleIndex + sievingPrime*F + C "
+                      "stays below 2^23 resp. the segment count) is tied by the cross and segment streams only"],
         explanation="18446744073709551557 is prime and nothing above it below 2^64 is (Lucas certificate + 58 explicit "
                     "factors); the iterator returns it and then reports primesieve_error forever; checkedAdd/checkedSub saturate"),
 }
